@@ -256,6 +256,7 @@ fn outcome_json(o: &detsim::Outcome) -> Value {
         "sim_clock_ns": o.clock_ns, "threads": o.threads, "hash": format!("{:016x}", o.hash),
         "sig": format!("{:016x}", o.sig), "jumps": o.jumps, "timeouts": o.timeouts, "blocks": o.blocks,
         "failure": o.failure.as_ref().map(|f| format!("{f:?}")), "wedged": o.wedged,
+        "foreign_blocks": o.foreign_blocks,
     })
 }
 
@@ -316,6 +317,7 @@ fn worker(args: &[String]) -> i32 {
         *stats.entry("blocks").or_insert(0) += o.blocks;
         *stats.entry("timeouts").or_insert(0) += o.timeouts;
         *stats.entry("threads").or_insert(0) += o.threads as u64;
+        *stats.entry("threads_found_asleep_outside_the_simulator").or_insert(0) += o.foreign_blocks;
         for (k, v) in &rep.faults {
             let d = faults.entry(k.clone()).or_insert(0);
             *d = d.saturating_add(*v);
